@@ -444,6 +444,8 @@ def _b_list(ex, st, args, kwargs, node, spec):
         return ListV((z3.BoolVal(True), i) for i in v.items)
     if isinstance(v, SeqV):
         return v
+    if isinstance(v, ObjV) and (v.cls, "__concat__") in ex.world.handlers:
+        return v          # a sequence value of a contract module's own kind
     raise Unsupported(f"list() of {v!r}")
 
 
